@@ -1,11 +1,14 @@
 package main
 
 import (
+	"errors"
 	"fmt"
 	"html"
 	"strconv"
 	"strings"
 	"unicode/utf8"
+
+	tplhtml "code.gopub.tech/tpl/html"
 )
 
 func init() {
@@ -326,6 +329,35 @@ func propC02(c *ctx) error {
 				}
 			}
 		}
+		// the inserted value need not be a Go string: whatever prints the characters (a named string type, a Stringer, an
+		// error, a slice, a map, a pointer) is escaped all the same — what is escaped is the printed text
+		if len(s) <= 3 || strings.ContainsAny(s, "<&\"'") {
+			str := s
+			for _, sh := range []struct {
+				name string
+				v    any
+			}{{"named string type", namedStr(s)}, {"Stringer", stringerT(s)}, {"error", errors.New(s)}, {"[]string", []string{s, "k"}}, {"[]any", []any{s}},
+				{"map", map[string]string{"k": s}}, {"*string", &str}, {"[1]string", [1]string{s}}, {"struct", struct{ A string }{s}}, {"[]byte", []byte(s)}} {
+				if sh.name == "*string" {
+					continue // prints as an address
+				}
+				printed := fmt.Sprint(sh.v)
+				m := tplhtml.NewTplManager()
+				if err := m.Add("t", strings.NewReader(`<p :text="${v}">o</p><a :title="${v}" :data-m="x${v}y" id=k>z</a>`)); err != nil {
+					continue
+				}
+				t, _ := m.GetTemplate("t")
+				var sb strings.Builder
+				err := t.Execute(&sb, map[string]any{"v": sh.v})
+				e := html.EscapeString(printed)
+				want := "<p>" + e + `</p><a title="` + e + `" data-m="x` + e + `y" id=k>z</a>`
+				res.S3Checked++
+				res.count("non_string_values")
+				if err != nil || sb.String() != want {
+					res.violate(J{"string": s, "carried_by": sh.name}, want, J{"out": sb.String(), "err": fmt.Sprint(err)}, "a value that is not a Go string but prints special characters is not escaped like a string")
+				}
+			}
+		}
 		// the raw directive is the only place that emits the value unmodified
 		out, rc := render(`<p :raw="${s}">o</p>`, s)
 		res.S3Checked++
@@ -502,3 +534,5 @@ func markX(tpl, baseOut string) string {
 	}
 	return ""
 }
+
+type namedStr string
